@@ -335,6 +335,13 @@ def real_queries():
             "bcast_chain": lambda d: d + (d.sum() + 1) * 2,
             "bcast_chain3": lambda d: d + ((d.sum() + 1) * 2 + 3),
             "bcast_chain4": lambda d: (d + (((d.sum() + 1) * 2 + 3) * 5)) * (d.max() * 2 + 1),
+            # collections built on an already optimised collection: nested groups that are not the first member,
+            # with a dependency of the nested group that is also a member of the outer group
+            "nested_dep_member": lambda d: (lambda s: (d + (2 + s)).optimize() + s)(1 - d.sum()),
+            "nested_dep_member2": lambda d: (lambda s: (d * (s + 2)).optimize() - s)(d.sum() * 3),
+            "nested_dep_member3": lambda d: (lambda s: (lambda f2: (f2 + s) * f2)((d - (s * 2)).optimize()))(d.max() + 1),
+            "nested_plain": lambda d: d.b + ((d.a - d.b) + 1).optimize(),
+            "nested_twice": lambda d: ((d.a + 1).optimize() * d.b).optimize() - d.a,
             "bcast_two": lambda d: (d + d.sum()) * (d.max() + 1),
             "bcast_shared": lambda d: (lambda s: (d + s) + (d + (s + 1)))(d.sum() * 2),
             "series_bcast": lambda d: d.a + d.a.sum(),
@@ -369,6 +376,14 @@ def real_queries():
 # --------------------------------------------------------------------------- families
 
 
+def _is_d10(exc):
+    """known finding D10 (C15): `assert key in divisions_lru` once more than 10 other sorts were planned since the
+    expression was built — the cached corpus of plans of a long run hits it; such cases are skipped here"""
+    import traceback
+
+    return isinstance(exc, AssertionError) and "divisions_lru" in "".join(traceback.format_exception(exc))
+
+
 def _fuse_real(expr, pol=None):
     from dask_expr._expr import optimize_blockwise_fusion
 
@@ -379,24 +394,26 @@ def _fuse_real(expr, pol=None):
 
 def _pass_requests(label, expr, reqs, code, inputs, nontriv, checks):
     """one request per real pass (model run on the plan before the pass, real name order as sort keys)
-    + bookkeeping for the `done` logic of the outer loop"""
+    + bookkeeping for the `done` logic of the outer loop.  Appends atomically."""
     out, calls = _fuse_real(expr)
-    first = len(reqs)
+    r, c, i, n = [], [], [], []
+    lab = label if isinstance(label, list) else str(label)
     for before, fused in calls:
         pb = Plan(before)
         g = [pb.id(m) for m in fused.exprs]
         ds = [pb.id(d) for d in fused.dependencies()]
-        reqs.append(f"fusion pass dag={pb.text} root={pb.root} keys={pb.keys}")
-        code.append(f"G group={_l(g)} deps={_l(ds)} np={fused.npartitions} nd={fused.ndim}")
-        inputs.append({"case": label if isinstance(label, list) else str(label), "plan": pb.text, "keys": pb.keys})
-        nontriv.append(True)
+        r.append(f"fusion pass dag={pb.text} root={pb.root} keys={pb.keys}")
+        c.append(f"G group={_l(g)} deps={_l(ds)} np={fused.npartitions} nd={fused.ndim}")
+        i.append({"case": lab, "plan": pb.text, "keys": pb.keys})
+        n.append(True)
     # the pass after the last successful one (runs unless the last one reported done)
     pf = Plan(out)
-    reqs.append(f"fusion pass dag={pf.text} root={pf.root} keys={pf.keys}")
-    code.append("G none")
-    inputs.append({"case": label if isinstance(label, list) else str(label), "plan": pf.text, "keys": pf.keys, "what": "final plan"})
-    nontriv.append(False)
-    checks.append((first, len(calls)))
+    r.append(f"fusion pass dag={pf.text} root={pf.root} keys={pf.keys}")
+    c.append("G none")
+    i.append({"case": lab, "plan": pf.text, "keys": pf.keys, "what": "final plan"})
+    n.append(False)
+    checks.append((len(reqs), len(calls)))
+    reqs += r; code += c; inputs += i; nontriv += n
     return out, calls
 
 
@@ -455,8 +472,7 @@ def fam_pass_stub(ctx):
             _, calls = _pass_requests(spec, ex[-1], reqs, code, inputs, nontriv, checks)
             multi += len(calls) > 1
         except Exception as e:  # noqa: BLE001
-            reqs.append("ping"); code.append(f"ERR {type(e).__name__}: {str(e)[:80]}")
-            inputs.append({"spec": spec}); nontriv.append(True); checks.append((len(reqs) - 1, 0))
+            f.disagreements.append({"input": {"case": spec}, "code": f"ERR {type(e).__name__}: {str(e)[:80]}", "model": "-"})
     _compare_passes(f, reqs, code, inputs, nontriv, checks)
     f.exhaustive = not ctx.quick
     f.note = (f"{len(specs)} DAGs (all shapes x kinds on <= {kmax_ex} nodes, random <= 9 nodes: shared nodes, 1/n partitions, "
@@ -500,18 +516,21 @@ def fam_pass_real(ctx):
     f = Family("fusion_pass_groups[_fusion_pass + outer loop on real expression DAGs, real name order]")
     reqs, code, inputs, nontriv, checks = [], [], [], [], []
     unknown = set()
+    skipped = 0
     plans = _real_plans(ctx)
     for label, expr in plans:
         try:
             _pass_requests(label, expr, reqs, code, inputs, nontriv, checks)
+            unknown.update(Plan(expr).unknown_bcast)
         except Exception as e:  # noqa: BLE001
-            reqs.append("ping"); code.append(f"ERR {type(e).__name__}: {str(e)[:80]}")
-            inputs.append({"query": label}); nontriv.append(True); checks.append((len(reqs) - 1, 0))
-        unknown.update(Plan(expr).unknown_bcast)
+            if _is_d10(e):
+                skipped += 1
+                continue
+            f.disagreements.append({"input": {"case": str(label)}, "code": f"ERR {type(e).__name__}: {str(e)[:80]}", "model": "-"})
     _compare_passes(f, reqs, code, inputs, nontriv, checks)
     if unknown:
         f.disagreements.append({"input": "unknown _broadcast_dep override", "code": sorted(unknown), "model": "default|all"})
-    f.note = f"{len(plans)} real plans (fusion corpus + vetted programs)"
+    f.note = f"{len(plans)} real plans (fusion corpus + vetted programs)" + (f"; {skipped} skipped (known finding D10)" if skipped else "")
     return f
 
 
@@ -549,13 +568,14 @@ def fam_native(ctx):
     for kind, label, expr in cases:
         try:
             out, calls = _fuse_real(expr)
+            plans_before = [Plan(before) for before, _ in calls]
+            pf = Plan(out) if calls else None
         except Exception as e:  # noqa: BLE001
-            reqs.append("ping")
-            want.append("OK")
-            inputs.append({"case": str(label), "error": f"{type(e).__name__}: {str(e)[:80]}"})
+            if not _is_d10(e):
+                f.disagreements.append({"input": {"case": str(label)}, "code": f"ERR {type(e).__name__}: {str(e)[:80]}", "model": "-"})
             continue
         for n, (before, fused) in enumerate(calls):
-            pb = Plan(before)
+            pb = plans_before[n]
             reqs.append(f"fusion group dag={pb.text} root={pb.root} group={_l([pb.id(m) for m in fused.exprs])}")
             want.append("OK")
             inputs.append({"case": str(label), "check": "group", "plan": pb.text})
@@ -566,14 +586,13 @@ def fam_native(ctx):
             want.append(str(_count_blockwise(before)))
             inputs.append({"case": str(label), "check": "measure", "plan": pb.text})
         if calls:
-            pf = Plan(out)
             reqs.append(f"fusion measure dag={pf.text} root={pf.root}")
             want.append(str(_count_blockwise(out)))
             inputs.append({"case": str(label), "check": "measure-final", "plan": pf.text})
             for e in pf.exprs:
                 if isinstance(e, Fused):
                     reqs.append(f"fusion check dag={pf.text} node={pf.id(e)}")
-                    want.append("OK")
+                    want.append("OK" if not any(isinstance(m, Fused) for m in e.exprs[1:]) else "OK-order")
                     inputs.append({"case": str(label), "check": "fused", "plan": pf.text, "node": pf.id(e)})
     model = drive(reqs)
     f.compare(inputs, want, model)
@@ -634,11 +653,11 @@ def fam_task(ctx):
     for label, expr, pol in cases:
         try:
             out, calls = _fuse_real(expr)
-        except Exception:  # noqa: BLE001
+            pf = Plan(out) if calls else None
+        except Exception:  # noqa: BLE001  (known finding D10 on long runs; the pass families report anything else)
             continue
         if not calls:
             continue
-        pf = Plan(out)
         for e in pf.exprs:
             if not isinstance(e, Fused):
                 continue
@@ -742,7 +761,7 @@ def run_program_case(case):
         return None  # program not expressible on this layout (not a fusion matter)
     if not hasattr(r, "expr"):
         return None
-    return compare_fuse(r.expr, twice=case.get("twice", False))
+    return compare_fuse(r.expr, twice=case.get("twice", False), noindex=p.noindex)
 
 
 def _unoptimized_runs(expr):
@@ -754,7 +773,7 @@ def _unoptimized_runs(expr):
     return e2e.run_or_err(go)[0] == "ok"
 
 
-def compare_fuse(expr, twice=False):
+def compare_fuse(expr, twice=False, noindex=False):
     a = e2e.run_or_err(lambda: expr.optimize(fuse=False))
     b = e2e.run_or_err(lambda: expr.optimize(fuse=True))
     if a[0] == "err" and b[0] == "err":
@@ -779,6 +798,7 @@ def compare_fuse(expr, twice=False):
     sp = fused_structure_problems(eb)
     if sp:
         return "fused structure: " + sp[0]
+    hz = nested_order_hazard(eb)
     ra = e2e.run_or_err(lambda: list(dask.get(dict(ea.__dask_graph__()), ea.__dask_keys__())))
     rb = e2e.run_or_err(lambda: list(dask.get(dict(eb.__dask_graph__()), eb.__dask_keys__())))
     if ra[0] == "err" and rb[0] == "err":
@@ -788,12 +808,32 @@ def compare_fuse(expr, twice=False):
     if ra[0] == "err" or rb[0] == "err":
         return f"graph execution raised only {'unfused' if ra[0] == 'err' else 'fused'}: {(ra if ra[0] == 'err' else rb)[1:]}"
     unordered = _has_unordered(ea)
-    # a join renumbers its output rows: with an unspecified row order the index labels are unspecified too
-    noindex = unordered and _has_join(ea)
+    # a join / reset_index renumbers the rows: with an unspecified row order (disk shuffle) the index labels
+    # are unspecified too.  Deterministic plans are compared exactly.
+    noindex = unordered and (noindex or _has_join(ea) or _has_renumbering(ea))
     for i, (x, y) in enumerate(zip(ra[1], rb[1])):
         if not e2e.same(x, y, sort_rows=unordered, drop_index=noindex):
-            return f"partition {i} differs: unfused={e2e.describe(x, 6)!r:.200} fused={e2e.describe(y, 6)!r:.200}"
+            return (f"partition {i} differs{' [' + hz + ']' if hz else ''}: "
+                    f"unfused={e2e.describe(x, 6)!r:.200} fused={e2e.describe(y, 6)!r:.200}")
     return None
+
+
+def nested_order_hazard(expr):
+    """a Fused whose member precedes a nested Fused member that depends on it (Fused._task then overwrites the
+    member's task with the nested group's stale placeholder)"""
+    from dask_expr._expr import Fused
+
+    for e in expr.walk():
+        if isinstance(e, Fused):
+            names = [m._name for m in e.exprs]
+            for pos, m in enumerate(e.exprs):
+                if isinstance(m, Fused) and any(d._name in names[:pos] for d in m.dependencies()):
+                    return "member precedes nested Fused that depends on it"
+    return None
+
+
+def _has_renumbering(expr):
+    return any(type(e).__name__ in ("ResetIndex", "CumulativeBlockwise") for e in expr.walk())
 
 
 def _has_join(expr):
@@ -906,7 +946,9 @@ def support(ctx, broken):
             if len(sup.samples) < 3:
                 sup.samples.append(case)
             if msg:
-                sig = {"kind": case["kind"], "what": msg.split(":")[0][:40]}
+                sig = {"kind": case["kind"], "what": msg.split(":")[0].split(" [")[0][:40]}
+                if "[" in msg.split(":")[0]:
+                    sig["structure"] = msg.split("[")[1].split("]")[0]
                 sup.failures.append(Failure(sig=sig, case=case, detail=msg))
                 if len(sup.failures) >= 5:
                     break
